@@ -53,6 +53,36 @@ def handle : List String → String
       showTwo impl ++ "\t" ++ showOpt (specTwoPath ms cwd p q) ++ "\t" ++ showOpt (specMount ms cwd p)
         ++ "\t" ++ showOpt (specMount ms cwd q) ++ "\t" ++ toString (impl != twoPathShortcut ms cwd p q)
     | _, _, _, _ => "error\tbad-hex"
+  | ["lstep", base, handed, kind, a1, a2, extra] =>
+    -- one call on a local filesystem whose session has handed out `handed` so far
+    let parseList : String → Option (List Path) := fun s =>
+      if s = "none" then some [] else (s.splitOn ",").mapM fromHex
+    let showList : List Path → String := fun l =>
+      if l.isEmpty then "none" else ",".intercalate (l.map toHexField)
+    let parseArg : String → Option LArg := fun s =>
+      match s.toList with
+      | 'L' :: r => (fromHex (String.ofList r)).map LArg.lit
+      | 'H' :: r =>
+        let (i, h) := r.span (fun c => c != ':')
+        match (String.ofList i).toNat?, fromHex (String.ofList (h.drop 1)) with
+        | some i, some h => some (LArg.handed i h)
+        | _, _ => none
+      | _ => none
+    let op : Option LOp :=
+      match kind, parseArg a1 with
+      | "access", some a => some (.access a)
+      | "open", some a => some (.openFile a)
+      | "access2", some a => (parseArg a2).map (LOp.access2 a)
+      | "mkdirtemp", some a => (fromHex extra).map (LOp.mkdirTemp a)
+      | "walk", some a => (parseList extra).map (fun rels => LOp.walk a (rels.map comps))
+      | _, _ => none
+    match fromHex base, parseList handed, op with
+    | some base, some hs, some op =>
+      let st : LState := { handed := hs, touched := [] }
+      let st' := lstep base st op
+      (if st'.touched.isEmpty then "invalid" else "ok") ++ "\t" ++ showList st'.touched
+        ++ "\t" ++ showList (st'.handed.drop hs.length)
+    | _, _, _ => "error\tbad-request"
   | _ => "error\tunknown-request"
 
 end Risor.C13
